@@ -21,7 +21,7 @@ import math
 import struct
 from decimal import Decimal
 from fractions import Fraction
-from typing import Any, Callable, Dict, Iterator, List, Tuple
+from typing import Any, Callable, Dict, Iterator, List, Optional, Tuple
 
 from . import probedefs
 from .probedefs import EXTRA_LEN, FLOAT_KINDS, INNER_STR, INT_KINDS, LEAF_FIELD
@@ -131,6 +131,10 @@ def _scalar_values(P, k: str, tag: str, n: int = 0) -> List[Tuple[str, Callable[
         f32 = k == "Float"
         return {
             "ZERO": _c(0.0, 0), "ONE": _c(1.0, 1), "M1": _c(-1.0, -1), "F1_5": _c(1.5, -2.25), "F0_1": _c(0.1, 1 / 3, 1e-3),
+            # one ulp above a value whose shortest decimal text is short: all 9 (float32) / 17 (double) significant digits are needed
+            "FULLPREC": (_c(struct.unpack("<f", struct.pack("<I", 0x447A0001))[0], struct.unpack("<f", struct.pack("<I", 0x3F800001))[0],
+                            struct.unpack("<f", struct.pack("<I", 0x4E7FFFFF))[0], -struct.unpack("<f", struct.pack("<I", 0x461C4001))[0]) if f32
+                         else _c(0.1 + 0.2, 1.0000000000000002, 1000.0000000000001, -9007199254740991.0)),
             "FMAX": _c(FLT_MAX, 3.4028235677973362e38) if f32 else _c(DBL_MAX),
             "NFMAX": _c(-FLT_MAX, -3.4028235677973362e38) if f32 else _c(-DBL_MAX),
             "BIGINT": _c(2 ** 62 + 1, 16777217, -(2 ** 53) - 1),
@@ -618,8 +622,21 @@ class _UnwindKbd(KeyboardInterrupt):
 _UNWINDS = (_Unwind, _UnwindBase, _UnwindKbd)
 
 
-def _probe(P) -> dict:
-    """values outside the domain must be refused (and leave the message alone); values inside must be stored"""
+def _take_handles(P) -> list:
+    """read array fields and keep the objects (with their message and a write of a value outside the domain through them)"""
+    a = fresh(P, f"MDF_P_ARR{EXTRA_LEN}")
+    n = fresh(P, "MDF_P_NEST")
+    return [(a, a.a_Int16, lambda h: h.__setitem__(0, 2 ** 15)),
+            (a, a.a_Uint8, lambda h: h.__setitem__(slice(0, 2), [1, 256])),
+            (a, a.a_Float, lambda h: h.__setitem__(1, 1e39)),
+            (a, a.a_Byte, lambda h: h.__setitem__(0, 300)),
+            (n, n.sa, lambda h: h.__setitem__(0, ())),
+            (n, n.sa, lambda h: h.__setitem__(slice(0, 1), [5]))]
+
+
+def _probe(P, handles: Optional[list] = None) -> dict:
+    """values outside the domain must be refused (and leave the message alone); values inside must be stored.
+    `handles`: array objects obtained at EARLIER points of the behaviour (inside or outside blocks): writes through them count too"""
     bads = [("MDF_P_SCAL", lambda m: setattr(m, "i8", 128)),
             ("MDF_P_SCAL", lambda m: setattr(m, "u16", -1)),
             ("MDF_P_SCAL", lambda m: setattr(m, "f32", 1e39)),
@@ -641,6 +658,17 @@ def _probe(P) -> dict:
         except BaseException:   # noqa: BLE001
             if bytes(m) != b0:
                 changed.append(j)
+    for j, (hm, h, f) in enumerate(handles or []):
+        b0 = bytes(hm)
+        try:
+            f(h)
+            accepted.append(100 + j)
+            ctypes.memmove(ctypes.addressof(hm), b0, len(b0))       # undo the raw write for the next probe
+        except (KeyboardInterrupt, SystemExit):
+            raise
+        except BaseException:   # noqa: BLE001
+            if bytes(hm) != b0:
+                changed.append(100 + j)
     good = "ok"
     m = fresh(P, "MDF_P_SCAL")
     a = fresh(P, f"MDF_P_ARR{EXTRA_LEN}")
@@ -663,6 +691,12 @@ def run_blocks(P, beh: List[dict], kind: int = 0) -> List[dict]:
     from pyrtma.validators import disable_message_validation
 
     ev: List[dict] = []
+    held: list = []
+
+    def probe():
+        e = _probe(P, list(held))
+        held.extend(_take_handles(P))        # objects made HERE are written through at every later probe
+        return e
 
     def level(i: int, depth: int) -> Tuple[int, int, bool]:
         """runs steps from i at this nesting level; returns (next i, blocks still to unwind by exception, explicit exit)"""
@@ -673,7 +707,7 @@ def run_blocks(P, beh: List[dict], kind: int = 0) -> List[dict]:
                 ev.append({"a": "Enter", "m": s["m"], "k": 0})
                 try:
                     with disable_message_validation(ignore=(s["m"] == "ign")):
-                        ev.append(_probe(P))
+                        ev.append(probe())
                         i, pend, explicit = level(i + 1, depth + 1)
                         if pend > 0:
                             raise _UNWINDS[kind % 3](pend)
@@ -683,7 +717,7 @@ def run_blocks(P, beh: List[dict], kind: int = 0) -> List[dict]:
                     pend = u.k - 1
                 if pend > 0:
                     return i, pend, True         # keep propagating through the enclosing block
-                ev.append(_probe(P))
+                ev.append(probe())
                 continue
             if depth == 0:
                 raise AssertionError("exit step outside any block: " + repr(beh))
@@ -697,7 +731,7 @@ def run_blocks(P, beh: List[dict], kind: int = 0) -> List[dict]:
         return i, 0, False
 
     def body():
-        ev.append(_probe(P))
+        ev.append(probe())
         level(0, 0)
 
     contextvars.copy_context().run(body)
